@@ -17,7 +17,7 @@ CLAIMS = {
     'C01': dict(
         technique=BIDFOLD + PATHS[len('static analysis: '):],
         text='(R9) Every call sequence over an alphabet of all call kinds (pass, double, redouble, cheapest / denomination-changing / top bids, '
-             'insufficient bids) to depth 6 (8 thorough) from the empty auction, other dealers to depth 4-5, and scripted long auctions incl. the '
+             'insufficient bids) to depth 6 (7 thorough) from the empty auction, other dealers to depth 4-5, and scripted long auctions incl. the '
              '319-call maximum, also as compiled by python -O: at every prefix the advertised vector of the 38 calls equals the legal set of the oracle, '
              'each offered call is accepted iff legal, a refused call is answered ILLEGAL and changes nothing observable.  Symbolic rules for all '
              'histories (evaluated when the state representation can be bound): legality as an inductive invariant of the 38-slot vector: for every call x slot value x flags x last bidder x seat, the '
